@@ -588,6 +588,7 @@ def run(res, ctx):
         run_errors(res, tmp, drv, rng, thorough)
         run_observations(res, tmp, drv)
         run_ini(res, tmp, drv)
+        run_baseline_exit(res, tmp)
         check_tables(res, drv)
         res.exhaustive = thorough    # the full finite option space (incl. mixed spellings, all verbosities) only in thorough
         res.extra["programs"] = len(progs)
@@ -709,7 +710,25 @@ def run_ini(res, tmp, drv):
     ini_b = _write(os.path.join(d, "both.ini"), "[bandit]\nlevel = 1\nconfidence = 1\n")
     ini_o = _write(os.path.join(d, "other.ini"), "[bandit]\nskips = B999\n")
     dirty_unf = unfiltered_scan([dirty], False, None)
-    cases = [
+    # INI thresholds that actually EXCLUDE something (seeded change C03-m9 looked the thresholds up before the INI options were merged: level = 2 on this
+    # program excludes nothing, so nothing showed): level 3 keeps the MEDIUM finding only, level 4 / confidence 4 with -ii on the command line ...
+    ini_l3 = _write(os.path.join(d, "level3.ini"), "[bandit]\nlevel = 3\n")
+    ini_l4 = _write(os.path.join(d, "level4.ini"), "[bandit]\nlevel = 4\n")
+    ini_c4 = _write(os.path.join(d, "conf4.ini"), "[bandit]\nconfidence = 4\nlevel = 3\n")
+    os.makedirs(os.path.join(d, "proj3"))
+    _write(os.path.join(d, "proj3", "dirty.py"), "assert x\npickle.loads(d)\n")
+    _write(os.path.join(d, "proj3", ".bandit"), "[bandit]\nlevel = 3\n")
+    proj3_unf = unfiltered_scan([os.path.join(d, "proj3")], True, None)
+    extra_cases = [
+        ("ini-level3-findings", ["--ini", ini_l3, "-f", "json", dirty], {"ini_level": "3", "format": "json"}, dirty_unf),
+        ("ini-level4-findings", ["--ini", ini_l4, "-f", "json", dirty], {"ini_level": "4", "format": "json"}, dirty_unf),
+        ("ini-level3-conf4-findings", ["--ini", ini_c4, "-f", "json", dirty], {"ini_level": "3", "ini_confidence": "4", "format": "json"}, dirty_unf),
+        ("ini-level4-exit-zero", ["--ini", ini_l4, "--exit-zero", "-f", "json", dirty], {"ini_level": "4", "exit_zero": True, "format": "json"}, dirty_unf),
+        ("ini-level3-quiet-txt", ["--ini", ini_l3, "-q", dirty], {"ini_level": "3"}, dirty_unf),
+        ("project-.bandit-level3-findings", ["-r", os.path.join(d, "proj3"), "-f", "json"], {"ini_level": "3", "format": "json"}, proj3_unf),
+        ("ini-level3-overridden-by-l", ["--ini", ini_l3, "-l", "-f", "json", dirty], {"ini_level": "3", "sev_flags": 1, "format": "json"}, dirty_unf),
+    ]
+    cases = extra_cases + [
         ("ini-level-clean-file", ["--ini", ini_l, clean], {"ini_level": "2"}, []),
         ("ini-level-findings", ["--ini", ini_l, "-f", "json", dirty], {"ini_level": "2", "format": "json"}, dirty_unf),
         ("ini-confidence", ["--ini", ini_c, clean], {"ini_confidence": "3"}, []),
@@ -777,6 +796,65 @@ def run_ini(res, tmp, drv):
             exp_exit = 1 if exp and not margs.get("exit_zero") else 0
             if r["exc"] is not None or r["exit"] != exp_exit or got != [tuple(x) for x in exp]:
                 res.violation("thresholds with an INI file present: wrong exit status or report", dict(replay, expected_exit=exp_exit, expected=exp, got=got))
+
+
+def run_baseline_exit(res, tmp):
+    """With -b the report lists the findings the baseline does not account for; the exit status goes with THAT list (seeded change C03-m10 counted for the exit
+    status without the baseline: an unchanged program re-scanned against its own report exited 1 with an empty report).  Oracle: self-consistency of each
+    run — exit 1 iff the report it wrote lists a finding (and --exit-zero is not given); plus the two end points: own report as baseline -> nothing reported,
+    exit 0; empty baseline -> as without one."""
+    d = os.path.join(tmp, "bl")
+    os.makedirs(d)
+    prog = _write(os.path.join(d, "mod.py"), "import subprocess\nassert x\npickle.loads(d)\nsubprocess.Popen(c, shell=True)\npassword = 'pw'\n")
+    prog2 = _write(os.path.join(d, "mod2.py"), "import subprocess\nassert x\npickle.loads(d)\nsubprocess.Popen(c, shell=True)\npassword = 'pw'\nexec(z)\nassert y\n")
+    own = os.path.join(d, "own.json")
+    C.run_cli(["-f", "json", "-o", own, "-q", prog])
+    empty = _write(os.path.join(d, "empty.json"), json.dumps({"results": []}))
+    older = os.path.join(d, "older.json")
+    with open(own) as fh:
+        data = json.load(fh)
+    data["results"] = [r for r in data["results"] if r["test_id"] in ("B101", "B404")]
+    with open(older, "w") as fh:
+        json.dump(data, fh)
+    # mod2.py scanned against the report of mod.py: file names differ, so rename in the baseline
+    own2 = os.path.join(d, "own2.json")
+    with open(own) as fh:
+        text = fh.read().replace("mod.py", "mod2.py")
+    with open(own2, "w") as fh:
+        fh.write(text)
+    for target, base, label, expect_n in ((prog, own, "own-report", 0), (prog, empty, "empty-baseline", None), (prog, older, "partial-baseline", None), (prog2, own2, "two-new-findings", None)):
+        for thr in ([], ["-ll"], ["-lll"], ["-ii"], ["--severity-level", "medium"]):
+            for fmt in ("json", "txt", "html"):
+                for ez in ([], ["--exit-zero"]):
+                    for vb in ([], ["-q"]):
+                        argv = ["-b", base, "-f", fmt] + thr + ez + vb + [target]
+                        outp = os.path.join(d, "rep.out")
+                        if os.path.exists(outp):
+                            os.remove(outp)
+                        r = C.run_cli(argv + ["-o", outp])
+                        res.case(("baseline-exit", label, tuple(thr), fmt, bool(ez), bool(vb)), True)
+                        res.count("stream:baseline-exit")
+                        text = open(outp, encoding="utf-8").read() if os.path.exists(outp) else ""
+                        n = None
+                        if fmt == "json":
+                            try:
+                                n = len(json.loads(text)["results"])
+                            except Exception:
+                                n = None
+                        elif fmt == "txt":
+                            n = text.count(">> Issue: [")
+                        else:
+                            n = text.count('<div id="issue-')
+                        replay = {"stream": "baseline-exit", "argv": [a.replace(tmp, "{TMP}") for a in argv], "case": label, "program": open(target).read(),
+                                  "baseline": "the JSON report of the same program" if label == "own-report" else label, "exit": r["exit"], "exc": r["exc"], "findings_in_report": n}
+                        if r["exc"] is not None or n is None:
+                            res.violation("no report / a traceback when scanning against a baseline", replay)
+                            continue
+                        want_exit = 1 if (n > 0 and not ez) else 0
+                        if r["exit"] != want_exit:
+                            res.violation("exit status does not go with the report written under a baseline (1 iff the report lists a finding and --exit-zero is absent)", dict(replay, expected_exit=want_exit))
+                        if expect_n is not None and n != expect_n:
+                            res.violation("a program re-scanned against its own report lists findings", replay)
 
 
 def check_tables(res, drv):
